@@ -40,6 +40,7 @@ func runC06(c *core.Ctx) {
 	ruleCCITTRefLine(c, "C06-R10")
 	ruleLZWEarlyChange(c)
 	ruleCCITTNoEOLInGroup4(c)
+	ruleAliasHygiene(c, [3]string{"C06-R12", "C06-R13", "C06-R14"}, "pdf/internal/filter/lzw", "pdf/internal/filter/predict", "pdf/internal/filter/runlength", "pdf/internal/filter/ccittfax", "pdf/internal/filter/ascii85", "pdf/internal/filter/asciihex")
 }
 
 // ruleCCITTRunBoundary: make-up codes may add up to exactly the row width; the
